@@ -19,7 +19,7 @@ META = dict(
                  '"leaves the wrapped pipeline untouched": same stage objects, classes and nesting afterwards, and the same observation',
                  'hit counts are checked where an independent measurement exists: the top-level count equals the examples delivered, the failed count equals the fetches that raised, '
                  'and the innermost (source) count equals the accesses counted by an instrumented source container'],
-    bounds=dict(quick='n in 0..3; every op at depth 1; op-class pairs at depth 2 (n = 2)', thorough='all depth-2 pairs (dict-backed n in {1,3}, list-backed n=2)'),
+    bounds=dict(quick='n in 0..3; every op at depth 1; op-class pairs at depth 2 (n = 2); random stages n in {0,2} x 7 consumer placements, 2 epochs', thorough='all depth-2 pairs (dict-backed n in {1,3}, list-backed n=2)'),
     outside=['hit counts of intermediate stages (no independent measurement)', 'real prefetch threads (serial contract)', 'depth > 2'],
 )
 
@@ -236,6 +236,75 @@ def body_interleave(backing, n, ops, scenario, *args):
         ProfilingDataset.timestamp = saved
 
 
+# ----------------------------------------------------------------------------- pipelines with random stages under freezing consumers
+R_NR, R_NC = 12, 6
+R_PIPES = ['reshuffle', 'reshuffle_map', 'apply', 'local', 'oneshot']
+R_CONSUMERS = ['plain', 'catch_in', 'catch_out', 'pf_in', 'pf_out', 'freeze_out', 'copy_out']
+
+
+def _rbuild(pid, n, rng):
+    from lazy_dataset.core import ListDataset
+    src = ListDataset(list(range(n)))
+    if pid == 'reshuffle':
+        return src.shuffle(True, rng=rng)
+    if pid == 'reshuffle_map':
+        return src.shuffle(True, rng=rng).map(lambda v: v + 10)
+    if pid == 'apply':
+        return src.apply(lambda d: d.shuffle(True, rng=rng), lazy=True)
+    if pid == 'local':
+        return src.shuffle(True, rng=rng, buffer_size=2)
+    if pid == 'oneshot':
+        return src.shuffle(False, rng=rng).map(lambda v: v + 10)
+    raise ValueError(pid)
+
+
+def _consume(ds, consumer, profiled, epochs):
+    """-> list of per-epoch observations (examples or exception class name); the profiler is put inside or outside the consumer stage"""
+    def P(x):
+        return ProfilingDataset(x) if profiled else x
+    try:
+        if consumer == 'plain':
+            top = P(ds)
+        elif consumer == 'catch_in':
+            top = P(ds.catch())
+        elif consumer == 'catch_out':
+            top = P(ds).catch()
+        elif consumer == 'pf_in':
+            top = P(ds.prefetch(2, 2))
+        elif consumer == 'pf_out':
+            top = P(ds).prefetch(2, 2)
+        elif consumer == 'freeze_out':
+            top = P(ds).copy(freeze=True)
+        elif consumer == 'copy_out':
+            top = P(ds).copy()
+        else:
+            raise ValueError(consumer)
+    except Exception as e:   # noqa
+        return [('build', type(e).__name__)]
+    obs = []
+    for _ in range(epochs):
+        try:
+            obs.append(list(top))
+        except Exception as e:   # noqa
+            obs.append(type(e).__name__)
+    return obs
+
+
+def body_random(pid, consumer, n, *args):
+    """the profiled twin of a pipeline with a random stage, driven by an equally seeded generator, delivers the same epochs (or the
+    same refusal) as the plain one - also under consumers that take frozen copies per iteration (catch, multi-worker prefetch)"""
+    r, c = list(args[:R_NR]), list(args[R_NR:])
+    saved = ProfilingDataset.timestamp
+    ProfilingDataset.timestamp = staticmethod(_Clock())
+    try:
+        plain = _consume(_rbuild(pid, n, rt.Rng(sel=list(r), choices=list(c))), consumer, False, 2)
+        prof = _consume(_rbuild(pid, n, rt.Rng(sel=list(r), choices=list(c))), consumer, True, 2)
+        rt.reached()
+        return plain == prof
+    finally:
+        ProfilingDataset.timestamp = saved
+
+
 def _iconds(tier, seed):
     ops_list = [(('map',),), (('map',), ('map',)), (('sl', 'm1'),), (('map',), ('batch', 2, False)), (('filt',),), (('copy',),), (('map',), ('items',))]
     out = []
@@ -281,6 +350,9 @@ def conditions(tier, seed):
 
 
 FAMILIES = [
+    Family('random', body_random, ['pid', 'consumer', 'n'], [(f'r{i}', 'int') for i in range(R_NR)] + [(f'c{i}', 'int') for i in range(R_NC)],
+           lambda tier, seed: [(p, c, n) for p in R_PIPES for c in R_CONSUMERS for n in ((0, 2) if tier == 'quick' else (0, 1, 2, 3))],
+           timeout=dict(quick=120, thorough=600), desc='profiled vs plain twin of pipelines with random stages (equally seeded), profiler inside / outside catch, prefetch(2,2), copy(freeze)'),
     Family('interleave', body_interleave, ['backing', 'n', 'ops', 'scenario'], U.POOL_PARAMS, _iconds, timeout=60,
            desc='hit counts under partial iteration + indexing, two interleaved iterators, an abandoned iteration'),
     Family('profile', body_profile, ['backing', 'n', 'ops'], U.POOL_PARAMS + [('i', 'int')], conditions, timeout=dict(quick=60, thorough=300),
